@@ -65,8 +65,8 @@ example :
     let cfg := Cfg.shipped 2 1
     let s := run cfg (fun k => k)
       [.put 1 3 .chunk, .put 3 9 .chunk, .run 2, .run 0, .run 1, .deliver 2, .deliver 1,   -- 1 and 3 stored
-       .put 1 6 .chunk, .put 2 12 .chunk,                                                   -- overwrite 1; 2 evicts 3
-       .run 5, .run 3, .run 4, .deliver 5, .deliver 3,
+       .put 2 12 .chunk, .put 1 6 .chunk,                                                   -- 2 evicts 3; overwrite 1
+       .run 5, .run 4, .run 3, .deliver 5, .deliver 4,
        .remove 2, .run 6]
     s.tasks = [] ∧ s.notes = [] ∧ get cfg s 1 = some (.whole 6) ∧ get cfg s 2 = none ∧ get cfg s 3 = none ∧
       s.index = [(1, .chunk)] ∧ keys s.disk = [1] := by
